@@ -17,6 +17,7 @@
 #include "galois/gdeque.h"
 #include "galois/gslist.h"
 #include "galois/runtime/Mem.h"
+#include "galois/runtime/PagePool.h"
 
 #include <csetjmp>
 #include <deque>
@@ -288,6 +289,37 @@ static void reg_final() {
   CK(R.live.empty(), "leak", "%zu element objects still alive after the container was destroyed", R.live.size());
 }
 
+// owner of a container under test: when a verdict exception unwinds the stack
+// the (possibly corrupted) container is leaked instead of destroyed, so that a
+// failing case cannot crash the process on the way out and stays shrinkable
+template <class C>
+struct Held {
+  C* p;
+  explicit Held(C* q = nullptr) : p(q) {}
+  Held(const Held&) = delete;
+  Held& operator=(const Held&) = delete;
+  Held(Held&& o) : p(o.p) { o.p = nullptr; }
+  Held& operator=(Held&& o) {
+    if (this != &o) {
+      reset();
+      p   = o.p;
+      o.p = nullptr;
+    }
+    return *this;
+  }
+  ~Held() {
+    if (std::uncaught_exceptions() == 0)
+      delete p;
+  }
+  void reset(C* q = nullptr) {
+    C* old = p;
+    p      = q;
+    delete old;
+  }
+  C* operator->() const { return p; }
+  C& operator*() const { return *p; }
+};
+
 struct Op {
   int kind;
   int64_t a;   // position field
@@ -369,6 +401,10 @@ static void gdeque_check(D& d, const std::deque<int64_t>& m, bool with_const) {
     if (!m.empty())
       CK(E::val(cd.front()) == m.front() && E::val(cd.back()) == m.back(), "const-front-back", "const front()/back() = %lld/%lld, model %lld/%lld",
          (long long)E::val(cd.front()), (long long)E::val(cd.back()), (long long)m.front(), (long long)m.back());
+    {
+      typename D::const_iterator cb = d.begin(), ce = d.end(); // iterator -> const_iterator
+      CK(cb == cd.begin() && ce == cd.end(), "const-conv", "const_iterator converted from begin()/end() differs from the const begin()/end()");
+    }
     size_t i = 0;
     for (auto it = cd.begin(), e = cd.end(); it != e; ++it, ++i) {
       CK(i < m.size(), "const-fwd-long", "const forward traversal yields more than %zu elements", m.size());
@@ -389,7 +425,7 @@ template <class T, unsigned N>
 static void run_gdeque(const Case& c) {
   typedef galois::gdeque<T, N> D;
   typedef El<T> E;
-  std::unique_ptr<D> d(new D());
+  Held<D> d(new D());
   std::deque<int64_t> m;
   auto after = [&](bool with_const = false) {
     X.maxsize = std::max(X.maxsize, m.size());
@@ -522,7 +558,7 @@ static void run_gdeque(const Case& c) {
       ++X.n_moves;
       if (o.var & 1) {
         tr("move construct");
-        std::unique_ptr<D> n(new D(std::move(*d)));
+        Held<D> n(new D(std::move(*d)));
         // the moved-from deque is valid but unspecified: it must be clearable and usable
         d->clear();
         CK(d->empty() && d->size() == 0, "moved-from", "moved-from deque is not empty after clear(): size %zu", (size_t)d->size());
@@ -532,7 +568,7 @@ static void run_gdeque(const Case& c) {
       } else {
         int pre = (int)((o.var >> 1) & 3);
         tr("move assign into a deque holding %d elements", pre);
-        std::unique_ptr<D> n(new D());
+        Held<D> n(new D());
         for (int i = 0; i < pre; ++i)
           n->push_back(E::make(900 + i));
         *n = std::move(*d);
@@ -723,6 +759,9 @@ static void ring_check(Rg& r, const std::deque<int64_t>& m, bool with_const) {
   }
   if (with_const) {
     const Rg& cr = r;
+    // (the iterator -> const_iterator conversion of the ring does not compile:
+    // the converting constructor reads private members of the other
+    // specialisation; it cannot be part of the harness)
     CK(cr.size() == m.size() && cr.empty() == m.empty() && cr.full() == (m.size() == N), "const-size", "const size() = %u, model %zu", cr.size(),
        m.size());
     if (!m.empty()) {
@@ -745,7 +784,7 @@ template <class T, unsigned N>
 static void run_ring(const Case& c) {
   typedef galois::FixedSizeRing<T, N> Rg;
   typedef El<T> E;
-  std::unique_ptr<Rg> r(new Rg());
+  Held<Rg> r(new Rg());
   std::deque<int64_t> m;
   unsigned mstart = 0; // model of the physical start slot (only for the labels)
   bool crev_done  = false;
@@ -1053,7 +1092,7 @@ template <class T, unsigned N, bool Conc>
 static void run_fsbag(const Case& c) {
   typedef galois::FixedSizeBagBase<T, N, Conc> B;
   typedef El<T> E;
-  std::unique_ptr<B> b(new B());
+  Held<B> b(new B());
   std::vector<int64_t> m;
   auto after = [&](bool with_const = false) {
     X.maxsize = std::max(X.maxsize, m.size());
@@ -1269,7 +1308,7 @@ static void run_gslist(const Case& c) {
   typedef El<T> E;
   typedef typename L::promise_to_dealloc Promise;
   galois::runtime::FixedSizeHeap heap(sizeof(typename L::block_type));
-  std::unique_ptr<L> l(new L());
+  Held<L> l(new L());
   std::vector<int64_t> m; // back() is the front of the list
   BlockModel bm;
   bm.N = N;
@@ -1375,7 +1414,7 @@ static void run_gslist(const Case& c) {
       ++X.n_moves;
       if (o.var & 1) {
         tr("move construct");
-        std::unique_ptr<L> n(new L(std::move(*l)));
+        Held<L> n(new L(std::move(*l)));
         // moved-from: valid but unspecified; must be clearable and reusable
         l->clear(heap);
         CK(l->empty(), "moved-from", "moved-from list is not empty after clear()");
@@ -1389,7 +1428,7 @@ static void run_gslist(const Case& c) {
       } else {
         int pre = (int)((o.var >> 1) & 3);
         tr("move assign into a list holding %d elements", pre);
-        std::unique_ptr<L> n(new L());
+        Held<L> n(new L());
         for (int i = 0; i < pre; ++i) {
           T t = E::make(900 + i);
           n->push_front(heap, t);
@@ -1450,8 +1489,10 @@ static void run_gslist(const Case& c) {
 // number of consecutive pops supported is implementation dependent").
 // kinds: 0 push 1 push_back 2 emplace/emplace_back 3 pop 4 clear
 //        5 clear_serial 6 move ctor/assign 7 swap 8 const/local iteration
-//        9 push many 10 pop many 11.. = kind % 11
-static const char* IBAG_OPS[] = {"push", "push_back", "emplace", "pop", "clear", "clear_serial", "move", "swap", "const", "push_many", "pop_many"};
+//        9 push many 10 pop many 11 bulk (page sized blocks only, when
+//        a % 64 == 63: push more than one page of elements, pop, check, clear;
+//        otherwise a push) 12.. = kind % 12
+static const char* IBAG_OPS[] = {"push", "push_back", "emplace", "pop", "clear", "clear_serial", "move", "swap", "const", "push_many", "pop_many", "bulk"};
 
 template <class T>
 struct BagModel {
@@ -1504,7 +1545,7 @@ static void run_insertbag(const Case& c) {
   typedef galois::InsertBag<T, BS> B;
   typedef El<T> E;
   galois::setActiveThreads((unsigned)c[F_THREADS]);
-  std::unique_ptr<B> b(new B());
+  Held<B> b(new B());
   BagModel<T> bm;
   auto after = [&](bool with_const = false) {
     X.maxsize = std::max(X.maxsize, bm.m.size());
@@ -1567,14 +1608,17 @@ static void run_insertbag(const Case& c) {
     }
     return true;
   };
-  X.op = "prefill";
+  bool bulk_done = false;
+  X.op           = "prefill";
   for (int64_t i = 0; i < c[F_PREFILL]; ++i)
     push(*b, bm, i + 1, 0);
   after();
   size_t nops = std::min<size_t>(c.f.size() - F_COUNT, MAX_OPS);
   for (size_t s = 0; s < nops; ++s) {
     Op o   = decode(c.f[F_COUNT + s], (int)s);
-    int k  = o.kind % 11;
+    int k  = o.kind % 12;
+    if (k == 11 && (BS != 0 || o.a % 64 != 63 || bulk_done))
+      k = 0;
     X.step = (int)s;
     X.op   = IBAG_OPS[k];
     ++X.n_ops;
@@ -1613,7 +1657,7 @@ static void run_insertbag(const Case& c) {
       ++X.n_moves;
       if (o.var & 1) {
         tr("move construct");
-        std::unique_ptr<B> n(new B(std::move(*b)));
+        Held<B> n(new B(std::move(*b)));
         b->clear(); // moved-from: valid but unspecified
         CK(b->empty() && b->begin() == b->end(), "moved-from", "moved-from bag is not empty after clear()");
         {
@@ -1626,7 +1670,7 @@ static void run_insertbag(const Case& c) {
       } else {
         int pre = (int)((o.var >> 1) & 3);
         tr("move assign into a bag holding %d elements", pre);
-        std::unique_ptr<B> n(new B());
+        Held<B> n(new B());
         BagModel<T> tmp;
         for (int i = 0; i < pre; ++i)
           push(*n, tmp, 900 + i, 0);
@@ -1639,7 +1683,8 @@ static void run_insertbag(const Case& c) {
       int pre   = (int)((o.var >> 1) & 7);
       bool keep = o.var & 1;
       tr("swap with a bag holding %d elements%s", pre, keep ? "" : " and swap back");
-      B other;
+      Held<B> oh(new B());
+      B& other = *oh;
       BagModel<T> om;
       for (int i = 0; i < pre; ++i)
         push(other, om, value_for((int)s, i), 0);
@@ -1663,6 +1708,21 @@ static void run_insertbag(const Case& c) {
       tr("push %zu", n);
       for (size_t i = 0; i < n; ++i)
         push(*b, bm, value_for((int)s, (int)i), (int)(o.var + i));
+      break;
+    }
+    case 11: {
+      // page sized blocks: cross a block boundary once per case
+      bulk_done = true;
+      size_t n  = galois::runtime::pagePoolSize() / sizeof(T) + 16;
+      tr("bulk: push %zu, pop 3, traverse, clear", n);
+      for (size_t i = 0; i < n; ++i)
+        push(*b, bm, (int64_t)(i % 100000) + 1000000, (int)(i & 7));
+      CK(bm.blocks > 1, "bulk-blocks", "%zu elements went into %zu block(s) of %zu bytes", bm.m.size(), bm.blocks, (size_t)galois::runtime::pagePoolSize());
+      for (int i = 0; i < 3; ++i)
+        pop(*b, bm);
+      after();
+      b->clear();
+      bm.cleared();
       break;
     }
     default: {
@@ -1707,7 +1767,7 @@ static const std::vector<int> WEIGHTS[NCONT] = {
     /* cfsbag   */ {7, 5, 4, 4, 2, 2, 1, 1, 1, 1, 2, 2},
     /* gslist   */ {8, 3, 4, 3, 1, 1, 1, 1, 1, 2, 2},
     /* cgslist  */ {8, 3, 4, 3, 1, 1, 1, 1, 1, 2, 2},
-    /* insertbag*/ {6, 3, 3, 6, 1, 1, 1, 1, 1, 2, 2}};
+    /* insertbag*/ {6, 3, 3, 6, 1, 1, 1, 1, 1, 2, 2, 1}};
 
 Case generate() {
   using namespace rc;
